@@ -328,7 +328,8 @@ class Compiler(ber.Compiler):
             compiled = Set(
                 name,
                 *self.compile_members(type_descriptor['members'],
-                                      module_name))
+                                      module_name,
+                                      sort_by_tag=True))
         elif type_name == 'SET OF':
             compiled = SetOf(name,
                              self.compile_type('',
